@@ -46,7 +46,8 @@ theorem describe_exact {S : Schema} (h : Accepted S) (F : List String) :
     have hp2 := (listed_perm hf F).map (·.name)
     rw [hp2.nodup_iff]
     exact hf.tableNodup.sublist ((List.filter_sublist).map _)
-  show ({ queryType := S.defn.query, mutationType := S.defn.mutation, subscriptionType := S.defn.subscription,
+  show ({ queryType := S.defn.query, mutationType := visibleRoot S.defn F S.defn.mutation,
+          subscriptionType := visibleRoot S.defn F S.defn.subscription,
           types := sortTypes ((((S.namedTypes.filterMap S.defn.lookup).filter (fun t => subsetOf t.feat.keys F))).map (typeData S F)),
           directives := S.defn.directives.map (directiveData S.defn) } : IntroData) = _
   rw [htypes]
